@@ -69,8 +69,16 @@ var pnames = []string{"x", "y", "z", "n", "m", "s", "l", "e"}
 func callOp(opn string, ps []interface{}, path string) M {
 	src := "(" + opn
 	env := Env{}
+	// "m<mask>:<pattern>": operand i is a literal where the pattern has 'l' and a variable where it has 'v',
+	// compiled under the option subset <mask> (a constant next to a variable is what partial folding sees)
+	pattern := ""
+	mask := 0
+	if strings.HasPrefix(path, "m") && strings.Contains(path, ":") {
+		fmt.Sscanf(path[1:strings.Index(path, ":")], "%d", &mask)
+		pattern = path[strings.Index(path, ":")+1:]
+	}
 	for i, p := range ps {
-		if path == "lit" {
+		if path == "lit" || (i < len(pattern) && pattern[i] == 'l') {
 			l := srcLit(p)
 			if l == "" {
 				return M{"t": "skip", "v": "no literal"}
@@ -82,7 +90,6 @@ func callOp(opn string, ps []interface{}, path string) M {
 		}
 	}
 	src += ")"
-	mask := 0
 	switch path {
 	case "fast":
 		mask = 4
@@ -165,8 +172,32 @@ func opsC18() {
 			pr = append(pr, tvw(p))
 		}
 		outs := []interface{}{}
+		paths := []string{"var", "fast", "lit"}
+		// some operands literal, the others variables, with and without the other optimizers (what partial constant
+		// folding sees); not for and/or/xor/not, whose constant operands legitimately decide without the others (C10)
+		if g0 := group[0]; len(ps) >= 2 && g0 != "and" && g0 != "or" && g0 != "xor" && g0 != "not" {
+			for _, m := range []string{"m1:", "m15:"} {
+				pat := make([]byte, len(ps))
+				for {
+					nl := 0
+					for j := range pat {
+						pat[j] = "lv"[r.Intn(2)]
+						if pat[j] == 'l' {
+							nl++
+						}
+					}
+					if nl > 0 && nl < len(ps) {
+						break
+					}
+				}
+				paths = append(paths, m+string(pat))
+			}
+			if len(ps) >= 3 {
+				paths = append(paths, "m1:v"+strings.Repeat("l", len(ps)-1))
+			}
+		}
 		for _, name := range group {
-			for _, path := range []string{"var", "fast", "lit"} {
+			for _, path := range paths {
 				if path == "fast" && len(ps) != 2 {
 					continue
 				}
@@ -312,7 +343,7 @@ func opsC18() {
 			id++
 			ab := callOp(opn, []interface{}{a, b}, "var")
 			rec := M{"fam": "ops", "for": "C18", "kind": "fold", "id": id, "op": opn, "src": "(" + opn + " a b c)",
-				"ab": ab, "abc": callOp(opn, []interface{}{a, b, c}, "var")}
+				"ab": ab, "abc": callOp(opn, []interface{}{a, b, c}, []string{"var", "m1:vll", "m15:vll", "m1:lvl", "m1:llv", "lit"}[r.Intn(6)])}
 			if ab["t"] == "w" {
 				rec["ab_c"] = callOp(opn, []interface{}{goVal(ab), c}, "var")
 			} else {
@@ -369,7 +400,7 @@ func opsC17() {
 		id++
 		rec := M{"fam": "ops", "for": "C17", "kind": "overlap", "id": id, "a": tv(A), "b": tv(B), "src": "(overlap A B) " + note}
 		outs := []interface{}{}
-		for _, path := range []string{"var", "fast", "lit"} {
+		for _, path := range []string{"var", "fast", "lit", "m1:vl", "m1:lv", "m15:vl", "m15:lv", "m0:lv"} {
 			ab := callOp("overlap", []interface{}{A, B}, path)
 			ba := callOp("overlap", []interface{}{B, A}, path)
 			if ab["t"] == "skip" {
@@ -384,7 +415,7 @@ func opsC17() {
 		id++
 		rec := M{"fam": "ops", "for": "C17", "kind": "in", "id": id, "a": tv(v), "b": tv(L), "src": "(in v L) " + note}
 		outs := []interface{}{}
-		for _, path := range []string{"var", "fast", "lit"} {
+		for _, path := range []string{"var", "fast", "lit", "m1:vl", "m1:lv", "m15:vl", "m15:lv", "m0:vl"} {
 			o := callOp("in", []interface{}{v, L}, path)
 			if o["t"] == "skip" {
 				continue
